@@ -127,6 +127,14 @@ func (f *frame) beforeCall(key string, args []Val, st *State, pos token.Pos) {
 	env := &Env{g: g, vars: map[string]Val{}, heap: st.heap, old: f.entry}
 	f.bindParams(env)
 	env.lookup = f.localsAt(f.curBlock)
+	// a parameter that has been reassigned: at a call site its name means the current value
+	// (name0 / old(name) give the entry value)
+	for _, p := range f.fn.Params {
+		if v, ok := env.lookup(p.Name()); ok && v.T != env.vars[p.Name()].T {
+			env.vars[p.Name()+"0"] = env.vars[p.Name()]
+			env.vars[p.Name()] = v
+		}
+	}
 	env.sset = f.sset
 	env.frame = f
 	env.callResults = f.callResults
